@@ -25,16 +25,17 @@ inductive STy where
   deriving Repr, Inhabited
 
 mutual
-  /-- the schema type of model class `t` used in a class (or message) of namespace `ctx` -/
-  def denote (F6 : Facts06) (tns ctx : Text) : Ty → STy
-    | .prim p _ => .simple (builtinOf p) (primFacets F6 p)
-    | .obj _ ns _ fields _ => .complex (denoteFields F6 tns ns fields)
+  /-- the schema type of model class `t` used in a class (or message) of namespace `ctx`; `pf` gives
+      the facets of a primitive (`primFacetsA A` for an application, `primFacets F6` without `values`) -/
+  def denote (pf : PrimTy → List Facet) (tns ctx : Text) : Ty → STy
+    | .prim p _ => .simple (builtinOf p) (pf p)
+    | .obj _ ns _ fields _ => .complex (denoteFields pf tns ns fields)
     | .arr member elem _ =>
-      .complex [((memberNs tns ctx member elem, memberLocal member), elem.occ, denote F6 tns ctx elem)]
+      .complex [((memberNs tns ctx member elem, memberLocal member), elem.occ, denote pf tns ctx elem)]
 
-  def denoteFields (F6 : Facts06) (tns ns : Text) : List (Text × Ty) → List (Key × Occ × STy)
+  def denoteFields (pf : PrimTy → List Facet) (tns ns : Text) : List (Text × Ty) → List (Key × Occ × STy)
     | [] => []
-    | (k, t) :: fs => ((ns, k), t.occ, denote F6 tns ns t) :: denoteFields F6 tns ns fs
+    | (k, t) :: fs => ((ns, k), t.occ, denote pf tns ns t) :: denoteFields pf tns ns fs
 end
 
 def slotsS (ps : List (Key × Occ × STy)) : List (Key × Occ) := ps.map (fun e => (e.1, e.2.1))
@@ -155,6 +156,62 @@ def arrNsOk (A : App) (cns cname k : Text) : Ty → Bool
 def App.wfBase (A : App) : Bool :=
   A.allClasses.all (fun C => chainOk A.iface (A.iface.classes.length + 1) C && namesNodup C.fields && fieldsWf C.fields &&
     (ownFields A.iface C).all (fun f => arrNsOk A C.ns C.name f.1 f.2))
+
+/-! ## Leaf conditions everywhere in a value (the shape of `Xml.fits`) -/
+
+mutual
+  /-- `c p v` holds at every leaf of the value, `p` being the declared primitive (member position) -/
+  def leaves (c : PrimTy → Val → Bool) (t : Ty) : Val → Bool
+    | .none => true
+    | .list vs => if t.occ.repeated then leavesItems c t vs else leavesOne c t (.list vs)
+    | v => leavesOne c t v
+
+  /-- one occurrence -/
+  def leavesOne (c : PrimTy → Val → Bool) (t : Ty) : Val → Bool
+    | .none => true
+    | .list vs =>
+      (match t with
+       | .arr _ elem _ => leavesItems c elem vs
+       | _ => true)
+    | .obj _ vs =>
+      (match t with
+       | .obj _ _ _ fields _ => leavesFields c fields vs
+       | _ => true)
+    | v => (match t with | .prim p _ => c p v | _ => true)
+
+  def leavesItems (c : PrimTy → Val → Bool) (t : Ty) : List Val → Bool
+    | [] => true
+    | v :: vs => leavesOne c t v && leavesItems c t vs
+
+  def leavesFields (c : PrimTy → Val → Bool) : List (Text × Ty) → List (Text × Val) → Bool
+    | (_, t) :: fs, (_, v) :: vs => leaves c t v && leavesFields c fs vs
+    | _, _ => true
+end
+
+/-- equality of leaf values of the kinds that can carry `values` -/
+def leafEq : Val → Val → Bool
+  | .int a, .int b => decide (a = b)
+  | .bool a, .bool b => decide (a = b)
+  | .date a, .date b => decide (a = b)
+  | .time a, .time b => decide (a = b)
+  | .dt a, .dt b => decide (a = b)
+  | .dur a, .dur b => decide (a = b)
+  | _, _ => false
+
+/-- `xs:dateTime` only has timezones within ±14:00 -/
+def tzOk : Val → Bool
+  | .dt x => (match x.tz with | some m => decide (-840 ≤ m) && decide (m ≤ 840) | none => true)
+  | _ => true
+
+/-- what `emitted_valid` asks of a leaf beyond `valueOk`: it has an XSD literal, and it is one of the
+    declared `values` when the primitive declares any -/
+def leafCond (A : App) (p : PrimTy) (v : Val) : Bool :=
+  tzOk v && ((A.extraVals p).isEmpty || (A.extraVals p).any (leafEq v))
+
+/-- the `values` table is sane: only on primitives XSD can enumerate (not xs:boolean), every value of
+    the declared kind, within the facets, and with an XSD literal -/
+def App.valuesWf (A : App) : Bool :=
+  A.values.all (fun e => decide (e.1 ≠ .boolean) && primWf e.1 && e.2.all (fun v => e.1.valueOk v && tzOk v))
 
 /-! ## Values that have an XSD literal -/
 
@@ -286,10 +343,10 @@ open Xml
     `S`, exactly the definition the generator wrote for this position -/
 def posOk (A : App) (S : Schema) (cns cname k : Text) : Ty → Bool
   | .prim p o =>
-    if isEnum p || !primIsDefault p then
+    if isEnum p || !isDefaultA A p then
       S.simple.lookup (itemKey A cns cname k (.prim p o)) ==
-        some { base := builtinOf p, facets := primFacets A.facts p }
-    else primFacets A.facts p == []
+        some { base := builtinOf p, facets := primFacetsA A p }
+    else primFacetsA A p == []
   | .obj name ns b fields _ =>
     (S.simple.lookup (ns, name)).isNone &&
     S.complex.lookup (ns, name) == some (classComplex A { name := name, ns := ns, base := b, fields := fields }).2
@@ -309,7 +366,7 @@ def App.resolvesOk (A : App) : Bool :=
 
 /-- well-formed universe: sane hierarchy and member lists, no name clashes (closedness,
     `App.resolvesOk`, follows: `Proofs/SchemaGen.closed_of_wf`) -/
-def App.wf (A : App) : Bool := A.wfBase && A.noClash
+def App.wf (A : App) : Bool := A.wfBase && A.noClash && A.valuesWf
 
 end Schema
 end SpyneModel
